@@ -188,7 +188,8 @@ func directLeafExt() func(string) (string, bool) {
 }
 
 // the C01 atoms plus a reference that differs from another one only in letter case
-var c06Atoms5 = []string{"MIT", "ISC", "LicenseRef-a", "DocumentRef-d:LicenseRef-a", "LicenseRef-A"}
+// ... and a reference whose name is a listed id in list casing
+var c06Atoms5 = []string{"MIT", "ISC", "LicenseRef-a", "DocumentRef-d:LicenseRef-a", "LicenseRef-A", "LicenseRef-MIT"}
 
 var c06Rich = append(append([]string{}, c01Rich...), "MIT", "Mit", "gpl-2.0+", "MIT+")
 
